@@ -151,7 +151,7 @@ def line_of(text, resp):
     m = re.match(r"(cell) (\S+) (\S+)|(wire|name|process) (\S+)", item)
     key = None
     if m:
-        key = f"cell {m.group(2)} {m.group(3)}" if m.group(1) else m.group(5)
+        key = f"cell {m.group(2)} {m.group(3).rstrip(':')}" if m.group(1) else m.group(5)
     if key:
         for k in range(start, len(lines)):
             if key in lines[k]:
@@ -282,6 +282,63 @@ def witness_f19(chk):
                        "classes": [F_DOLLAR]})
 
 
+def observations(chk):
+    """three behaviours of the unchanged tree that the text of the property does not clearly decide: replayed on every run
+    and written to the evidence (`coverage.observations`); none of them is judged (never a violation)"""
+    from amaranth.hdl import Signal, Module, IOPort, IOBufferInstance, ClockSignal, Fragment, Elaboratable
+    from amaranth.back import rtlil
+    obs = {}
+    # (a) a top-level IOPort of which only a part is used, as an output: the port wire is the whole IOPort
+    #     (`_compute_io_ports`: "each IOPort is added in its entirety") and its unused bits have no driver
+    try:
+        m = Module()
+        pins, x = IOPort(4, name="pins"), Signal(name="x")
+        m.submodules += IOBufferInstance(pins[3], o=x)
+        text = rtlil.convert(m, ports=[pins, x], emit_src=False)
+        r = dict(tok.split("=", 1) for tok in chk.driver.ask([f"(wf {esc(text)} (foreign))"])[0].split("\t") if "=" in tok)
+        obs["partially_used_output_ioport"] = ("IOBufferInstance(pins[3], o=x) on IOPort(4): " +
+                                               (f"wf=fail {r.get('clause')}: {r.get('item')}" if r.get("wf") == "fail" else f"wf={r.get('wf')}"))
+        if r.get("wf") == "fail":
+            # recorded finding F38 (known_findings.txt): read literally this breaks "every wire bit ... has exactly one
+            # driver"; the generator completes partial uses, so only this witness shape is classified
+            chk.violation(f"partially used top-level output IOPort: clause {r.get('clause')}: {r.get('item')}",
+                          dict(stream="observation", design="IOBufferInstance(pins[3], o=x) on IOPort(4), ports=[pins, x]",
+                               text=text, classes=["F38"] if (r.get("clause") == "exactly-one-driver" and "\\pins" in str(r.get("item"))
+                                                             and "0 drivers" in str(r.get("item"))) else []))
+    except Exception as e:
+        obs["partially_used_output_ioport"] = "raises " + errkind(e)
+    # (b) ClockSignal() listed in ports= while the `sync` domain is created automatically: clk becomes an input port twice
+    try:
+        m = Module()
+        s = Signal(4, name="s")
+        m.d.sync += s.eq(s + 1)
+        rtlil.convert(m, ports=[s, ClockSignal()], emit_src=False)
+        obs["clocksignal_port_of_auto_domain"] = "converts"
+    except Exception as e:
+        obs["clocksignal_port_of_auto_domain"] = f"raises {errkind(e)}: {str(e).split(':')[0]}"
+    # (c) an Elaboratable whose elaborate() returns one stored Fragment: Fragment.get prepends to its `origins` every time
+    try:
+        f = Fragment()
+
+        class Stored(Elaboratable):
+            def elaborate(self, platform):
+                return f
+        e = Stored()
+        lens = []
+        for _ in range(3):
+            Fragment.get(e, None)
+            lens.append(len(f.origins))
+        try:
+            rtlil.convert(e, ports=[], emit_src=False)
+            second = "converts"
+        except Exception as ex:
+            second = "raises " + errkind(ex)
+        obs["stored_fragment_origins"] = f"len(origins) after 1, 2, 3 Fragment.get: {lens}; rtlil.convert afterwards {second}"
+    except Exception as e:
+        obs["stored_fragment_origins"] = "raises " + errkind(e)
+    chk.extra["observations"] = obs
+
+
 def run(chk):
     if not chk.lean():
         chk.not_shown("Lean build of Properties/C07 failed", chk.build_log[-3000:])
@@ -305,6 +362,7 @@ def run(chk):
         for k in range(0, n, 25):
             args.append((kind, seeds[k:k + 25], opts, EXE))
     witness_f19(chk)
+    observations(chk)
     with ProcessPoolExecutor(max_workers=min(16, os.cpu_count() or 4)) as ex:
         for cases in ex.map(job, args, chunksize=1):
             for c in cases:
@@ -318,8 +376,11 @@ def run(chk):
         "private names, zero-width, unused, undriven and partially driven signals, per-bit owners in different modules and "
         "domains, reads from every module (routing through ancestors, descendants, siblings), 1-3 clock domains, memories with "
         "sync/comb/transparent read ports and granular write ports, Instances with int/big/negative/str/float/Const "
-        "parameters and attributes, IOPorts with I/O buffers, lib.data structured signals, ports given as list, dict or "
-        "tuples; plus single-module designs of the C02 program generator; plus three streams with odd user names "
+        "parameters and attributes (an attribute literally named `src` on two fifths of the generic instances), IOPorts with I/O buffers, "
+        "I/O buffers and instance ports on concatenations of slices of one or two IOPorts (split, swapped, bit by bit, a part and "
+        "separately the rest; in a tenth of the designs one bit twice inside the value or in two uses: these must be refused, "
+        "all others must convert), lib.data structured signals, ports given as list, dict or tuples, half of the designs "
+        "converted with emit_src=True; plus single-module designs of the C02 program generator; plus three streams with odd user names "
         "(x$k, white space, dotted) and two streams with the constructs of recorded findings (array-element targets shorter than "
         "the array under a part-select, zero-width IOPorts). distinct = distinct emitted text; non-trivial = the document has a cell or process")
     chk.extra["programs"] = chk.cov["evaluations"]
@@ -330,4 +391,7 @@ def run(chk):
     chk.assumptions += [
         "universality over designs is sampled (translation validation); soundness of the validator is proved (wf_sound)",
         "the expected type/parameters/attributes/ports of foreign instances are computed by the harness from the Python values",
+        "a generated source location (`src`) on a foreign cell is not compared; a given attribute named `src` is (wf_src_sound)",
+        "a DriverConflict is a legitimate refusal only for a design of the generator that uses an I/O port bit twice; the generator "
+        "gives every other bit of every signal and port exactly one owner, so any other DriverConflict is reported",
         "declaration-before-use order of wires inside a module is not checked (the reader collects items by kind)"]
